@@ -85,6 +85,15 @@ const c16Soy = `{namespace d}
 {$x|noAutoescape|changeNewlineToBr}
 {/template}
 /** @param x */
+{template .broff autoescape="false"}
+{$x|changeNewlineToBr}
+{/template}
+/** @param x
+ @param n */
+{template .wbroff autoescape="false"}
+{$x|insertWordBreaks:$n}
+{/template}
+/** @param x */
 {template .urijs}
 {$x|escapeUri|escapeJsString}
 {/template}
@@ -301,19 +310,23 @@ func checkC16(c *Ctx) {
 				}
 			}
 			// changeNewlineToBr
-			if out, ok := render("br", 0); ok {
+			for _, t := range []string{"br", "broff"} {
+				out, ok := render(t, 0)
+				if !ok {
+					continue
+				}
 				stripped := strings.ReplaceAll(out, "<br>", "")
 				nl := strings.Count(strings.ReplaceAll(s, "\r\n", "\n"), "\n") + strings.Count(strings.ReplaceAll(s, "\r\n", ""), "\r")
 				want := strings.NewReplacer("\r\n", "", "\r", "", "\n", "").Replace(s)
 				dec, okd := htmlDecodeFull(stripped)
 				switch {
 				case !okd:
-					bad("changeNewlineToBr changes nothing but line breaks in the escaped text", "br-raw", "br", 0, "escaped text with <br> for line breaks", out)
+					bad("changeNewlineToBr changes nothing but line breaks in the escaped text", "br-raw:"+t, t, 0, "escaped text with <br> for line breaks", out)
 				case strings.ContainsRune(s, 0) || (!valid && be != "go"):
 				case dec != want:
-					bad("changeNewlineToBr changes nothing but line breaks in the escaped text", "br-text", "br", 0, want, fmt.Sprintf("%q decodes to %q", out, dec))
+					bad("changeNewlineToBr changes nothing but line breaks in the escaped text", "br-text:"+t, t, 0, want, fmt.Sprintf("%q decodes to %q", out, dec))
 				case strings.Count(out, "<br>") != nl:
-					bad("changeNewlineToBr turns every line break into one <br>", "br-count", "br", 0, fmt.Sprint(nl, " <br>"), out)
+					bad("changeNewlineToBr turns every line break into one <br>", "br-count:"+t, t, 0, fmt.Sprint(nl, " <br>"), out)
 				}
 			}
 			// insertWordBreaks with every in-range limit
@@ -321,8 +334,12 @@ func checkC16(c *Ctx) {
 			if maxN > 8 {
 				maxN = 8
 			}
-			for n := 1; n <= maxN; n++ {
-				out, ok := render("wbr", n)
+			for k := 1; k <= maxN+1; k++ {
+				t, n := "wbr", k
+				if k == maxN+1 {
+					t, n = "wbroff", 2
+				}
+				out, ok := render(t, n)
 				if !ok {
 					continue
 				}
@@ -330,15 +347,15 @@ func checkC16(c *Ctx) {
 				dec, okd := htmlDecodeFull(stripped)
 				switch {
 				case !okd:
-					bad("insertWordBreaks changes nothing but break opportunities in the escaped text", "wbr-raw", "wbr", n, "escaped text with <wbr>", out)
+					bad("insertWordBreaks changes nothing but break opportunities in the escaped text", "wbr-raw", t, n, "escaped text with <wbr>", out)
 				case strings.ContainsRune(s, 0) || (!valid && be != "go"):
 				case dec != s:
 					// (also for strings that are not valid UTF-8: the directive passes bytes through)
-					bad("insertWordBreaks changes nothing but break opportunities in the escaped text", "wbr-text", "wbr", n, s, fmt.Sprintf("%q decodes to %q", out, dec))
+					bad("insertWordBreaks changes nothing but break opportunities in the escaped text", "wbr-text", t, n, s, fmt.Sprintf("%q decodes to %q", out, dec))
 				case wbrInsideEntity(out):
-					bad("no <wbr> falls inside a character reference", "wbr-entity", "wbr", n, "breaks between characters", out)
+					bad("no <wbr> falls inside a character reference", "wbr-entity", t, n, "breaks between characters", out)
 				case be == "go" && maxRun(out) > n:
-					bad("insertWordBreaks offers a break at least every n characters of a word", "wbr-run", "wbr", n, fmt.Sprintf("runs of at most %d characters", n), out)
+					bad("insertWordBreaks offers a break at least every n characters of a word", "wbr-run", t, n, fmt.Sprintf("runs of at most %d characters", n), out)
 				}
 			}
 			// truncate with every in-range limit
